@@ -358,3 +358,184 @@ def extra_units():
     from pyvc.units import share
     return [share(u, PROP) for u in c06.UNITS if getattr(u, 'name', '').startswith('MoleculeIterator.assign_fragment')
             or getattr(u, 'name', '') == 'Molecule.add_fragment']
+
+
+# ------------------------------------------------------------------------------ one hash group of an ejection check, as a whole
+# collect + pop + whatever else the body does: the molecules that were not selected stay buffered under their hash group (an
+# ejection check may only remove what it emits), and exactly the selected ones are emitted.
+def _group_body(f):
+    import ast
+    loops = blocks.find_nodes(f, lambda n: isinstance(n, ast.For) and 'molecules_per_cell.items()' in ast.unparse(n.iter)
+                              and any(isinstance(x, ast.Call) and ast.unparse(x.func).endswith('can_be_yielded') for x in ast.walk(n)))
+    return loops[0].body if loops else []
+
+
+_COLLECT_INV = {
+    'increasing': 'forall(t, implies(0 <= t and t < len(to_pop) - 1, to_pop[t] < to_pop[t+1]))',
+    'in_range': 'forall(t, implies(0 <= t and t < len(to_pop), 0 <= to_pop[t] and to_pop[t] < k))',
+    'at_most_one_per_iteration': 'len(to_pop) <= k',
+    'index_at_least_rank': 'forall(t, implies(0 <= t and t < len(to_pop), to_pop[t] >= t))',
+    'buffer_untouched': 'len(molecules) == len(entry(molecules, 0))',
+}
+group_body = Contract(
+    PROP, FI + '::MoleculeIterator.__iter__', name='eject.hash_group[one group of an ejection check]',
+    block=_group_body,
+    params={'self': ('obj', 'MoleculeIterator', {'molecules_per_cell': lambda eng, name: None, 'waiting_fragments': 'int',
+                                                  'yielded_fragments': 'int', 'perform_allele_clustering': ('const', False)}, FI),
+            'hash_group': ('const', 'hg'), 'molecules': MOLS, 'current_chrom': 'str', 'current_position': 'int'},
+    requires=[IDENT.format(L='molecules')],
+    yields='checks-only',
+    loops={0: LoopSpec(inv=_COLLECT_INV, types={'to_pop': ('symlist', (INT,), None)}),
+           1: LoopSpec(inv={'length': 'len(molecules) == len(entry(molecules, 1)) - k',
+                            'shifted_by_pops_so_far': 'forall(t, implies((k == 0 or t >= to_pop[k-1] - (k-1)) and 0 <= t and '
+                                                      't < len(molecules), molecules[t].idx == t + k))'},
+                         types={})},
+    yield_checks={'only_selected_molecules_are_emitted': 'exists(t, 0 <= t and t < len(to_pop) and yv.idx == to_pop[t])'},
+    ensures={
+        'molecules_not_selected_stay_buffered_under_their_group':
+            'implies(N0 - len(to_pop) > 0, ("hg" in self.molecules_per_cell) and len(self.molecules_per_cell["hg"]) == N0 - len(to_pop))',
+        'no_other_group_appears': 'all(g == "hg" for g in self.molecules_per_cell)',
+    },
+    raises={},
+    assumptions=['perform_allele_clustering off; can_be_yielded through its contract (an uninterpreted verdict per molecule here)'],
+)
+
+
+def _group_pre(eng, fr):
+    fr.env['self'].attrs['molecules_per_cell'] = {'hg': fr.env['molecules']}
+    eng.spec_env['N0'] = fr.env['molecules'].vc_len(eng) if hasattr(fr.env['molecules'], 'vc_len') else len(fr.env['molecules'])
+
+
+group_body.pre_state = _group_pre
+UNITS.append(group_body)
+
+
+def group_replay(inputs, clause):
+    """the real statements of the hash-group body on a real (uninitialised) MoleculeIterator: buffers of 2..6 molecules with every
+    choice of ejectable ones; the molecules that are not ejectable must still be buffered under their group afterwards"""
+    import itertools
+    from pyvc.blockreplay import run_block
+    from pyvc.contract import import_real
+    cls = import_real(FI, 'MoleculeIterator')
+
+    class Mol:
+        def __init__(self, idx, ej):
+            self.idx, self.ej = idx, ej
+
+        def __finalise__(self):
+            pass
+
+        def can_be_yielded(self, chrom, pos):
+            return self.ej
+
+        def __len__(self):
+            return 1
+    n_model = len(inputs.get('molecules') or [])
+    for n in sorted({2, 3, 4, 6} | ({n_model} if 0 < n_model <= 8 else set())):
+        for pattern in itertools.product((False, True), repeat=n):
+            it = object.__new__(cls)
+            it.perform_allele_clustering = False
+            it.waiting_fragments, it.yielded_fragments = n, 0
+            lst = [Mol(i, e) for i, e in enumerate(pattern)]
+            it.molecules_per_cell = {'hg': lst}
+            env = {'self': it, 'hash_group': 'hg', 'molecules': lst, 'current_chrom': 'chr1', 'current_position': 100}
+            ys, final, exc = run_block(FI, 'MoleculeIterator.__iter__', _group_body, env)
+            kept = [m.idx for m in it.molecules_per_cell.get('hg', [])]
+            want_kept = [i for i, e in enumerate(pattern) if not e]
+            emitted = sorted(m.idx for m in (ys or []))
+            if exc is not None or kept != want_kept or emitted != [i for i, e in enumerate(pattern) if e]:
+                obs = {'outcome': 'raise' if exc else 'return', 'value': {'ejectable': list(pattern), 'emitted': emitted,
+                                                                          'still_buffered': kept, 'expected_buffered': want_kept,
+                                                                          'exception': str(exc) if exc else None}}
+                return {'status': 'confirmed', 'observed': obs, 'failed': [{'clause': clause}]}
+    return {'status': 'not-reproduced', 'observed': {'outcome': 'return', 'value': 'all patterns of 2,3,4,6 molecules agree'}}
+
+
+group_body.replay = group_replay
+
+
+# ------------------------------------------------------------------------------ the position an ejection check is made for
+# "no molecule is emitted while a later fragment could still join it" rests on can_be_yielded being asked about the contig and
+# the end of the fragment that triggered the check (Molecule.can_be_yielded's contract takes exactly that position) - whatever
+# the iterator went through before (its counters and any other state _clear_cache initialises hold arbitrary values here).
+def _check_prologue(f):
+    import ast
+    ifs = blocks.find_nodes(f, lambda n: isinstance(n, ast.If) and 'check_eject_every' in ast.unparse(n.test)
+                            and 'check_ejection_iter' in ast.unparse(n.test))
+    if not ifs:
+        return []
+    out = []
+    for st in ifs[0].body:
+        if isinstance(st, ast.If) and 'pooling_method' in ast.unparse(st.test):
+            break
+        out.append(st)
+    return out
+
+
+def _prologue_self(pooling):
+    def mk(eng, name):
+        o = Obj('MoleculeIterator', {'pooling_method': pooling}, info=eng.loader.classref(FI, 'MoleculeIterator'))
+        # every attribute the iterator (re)initialises, with an arbitrary value of its kind: an arbitrary history
+        eng.call_method(o, '_clear_cache', [], {})
+        for k, v in list(o.attrs.items()):
+            if isinstance(v, int) and not isinstance(v, bool) and k != 'pooling_method':
+                h = named(INT, 'state.' + k)
+                eng.assume(h.z >= 0)
+                o.attrs[k] = h
+        return o
+    return mk
+
+
+def _span_fragment(with_contig):
+    def mk(eng, name):
+        span = (named(STR, 'span_contig') if with_contig else None, named(INT, 'span_start'), named(INT, 'span_end'))
+        eng.assume(z3.And(span[1].z >= 0, span[1].z <= span[2].z))
+        eng.spec_env['SPAN'] = span
+        o = Obj('SpanFragment', {'span': span})
+        o.vc_immutable = True
+        return o
+    return mk
+
+
+stubs.STUBS['SpanFragment'] = {'methods': {'get_span': lambda e, o: o.attrs['span']}, 'props': {}, 'setters': {}}
+
+check_position = Contract(
+    PROP, FI + '::MoleculeIterator.__iter__', name='eject.position[what can_be_yielded is asked about]',
+    block=_check_prologue,
+    params={'self': _prologue_self(0), 'fragment': _span_fragment(True)},
+    cases=[{}, {'self': _prologue_self(1)}, {'fragment': _span_fragment(False)}],
+    ensures={
+        'the_check_is_made_for_the_contig_and_end_of_the_triggering_fragment':
+            'implies(SPAN[0] is not None, current_chrom == SPAN[0] and current_position == SPAN[2])',
+    },
+    raises={},
+    assumptions=['fragment.get_span() returns the span of the fragment (Fragment contract); iterator state: arbitrary values for '
+                 'everything _clear_cache initialises'],
+)
+UNITS.append(check_position)
+
+
+def position_replay(inputs, clause):
+    """the real statements on a real (uninitialised) MoleculeIterator carrying the model's state, a fragment with the model's
+    span: the position the check is made for is read back from the block's locals"""
+    from pyvc.blockreplay import run_block
+    from pyvc.contract import import_real
+    cls = import_real(FI, 'MoleculeIterator')
+    it = object.__new__(cls)
+    for k, v in (inputs['self']['attrs'] or {}).items():
+        setattr(it, k, v)
+    span = tuple((inputs.get('ghost') or {}).get('SPAN') or inputs['fragment']['attrs']['span'])
+
+    class Frag:
+        def get_span(self):
+            return span
+    ys, final, exc = run_block(FI, 'MoleculeIterator.__iter__', _check_prologue, {'self': it, 'fragment': Frag()})
+    got = (final.get('current_chrom'), final.get('current_position'))
+    obs = {'outcome': 'raise' if exc else 'return', 'value': {'asked_about': list(got), 'span_of_the_fragment': list(span),
+                                                                'exception': str(exc) if exc else None}}
+    if exc is not None or (span[0] is not None and got != (span[0], span[2])):
+        return {'status': 'confirmed', 'observed': obs, 'failed': [{'clause': clause}]}
+    return {'status': 'not-reproduced', 'observed': obs}
+
+
+check_position.replay = position_replay
